@@ -265,19 +265,19 @@ func (c *Ctx) Finish(verifDir string, start time.Time, loadInfo map[string]any) 
 		"not the behaviour itself. Decided clauses: %s. NOT decided (out of reach of a sound static argument): %s.",
 		loadInfo["callgraph"], c.Prop, strings.Join(c.Decided, "; "), strings.Join(c.NotDec, "; "))
 	cov := map[string]any{
-		"explanation":        expl,
-		"obligations":        res.Obligations,
-		"discharged":         res.Discharged,
-		"known_findings":     len(res.KnownHits),
+		"explanation":           expl,
+		"obligations":           res.Obligations,
+		"discharged":            res.Discharged,
+		"known_findings":        len(res.KnownHits),
 		"violated_or_undecided": len(res.Violations),
-		"rules":              rules,
-		"functions_analysed": len(fns),
-		"functions":          fns,
-		"packages":           loadInfo["packages"],
-		"repo_functions":     loadInfo["repo_functions"],
-		"samples":            samples,
-		"exhaustive":         true,
-		"checker_cmd":        fmt.Sprintf("./check %s %s", c.Prop, c.Tier),
+		"rules":                 rules,
+		"functions_analysed":    len(fns),
+		"functions":             fns,
+		"packages":              loadInfo["packages"],
+		"repo_functions":        loadInfo["repo_functions"],
+		"samples":               samples,
+		"exhaustive":            true,
+		"checker_cmd":           fmt.Sprintf("./check %s %s", c.Prop, c.Tier),
 		"trusted_base": []string{"go/types, go/ssa (x/tools v0.29.0) construction", "CHA call graph (sound for non-reflective code); VTA only refines it in the thorough tier",
 			"Pebble, mmap, gRPC, generated protobuf code treated as opaque and correct", "API facts table in DESIGN.md section 2", "hand-frozen tables in internal/props (each with a reason)"},
 		"notes": c.Notes,
